@@ -13,10 +13,10 @@ pkgdir=$(jq -r .demo_package_dir "$meta" 2>/dev/null | sed 's#^\./##; s#/$##')
 pkgdir=$(basename "$pkgdir")
 cd $wt && git reset -q --hard HEAD && git clean -fdq
 cp "$demo" $wt/$pkgdir/zz_seed_demo_test.go
-tname=$(grep -oE 'func (Test[A-Za-z0-9_]+)' $wt/$pkgdir/zz_seed_demo_test.go | head -1 | cut -d' ' -f2)
-clean=$(go test -vet=off -count=1 -race -run "^${tname}\$" ./$pkgdir 2>&1 | tail -1)
+tname=$(grep -oE 'func (Test[A-Za-z0-9_]+)' $wt/$pkgdir/zz_seed_demo_test.go | cut -d' ' -f2 | paste -sd'|')
+clean=$(go test -vet=off -count=1 -race -run "^(${tname})\$" ./$pkgdir 2>&1 | tail -1)
 git apply "$patch" || { echo "PATCH DOES NOT APPLY"; git reset -q --hard; git clean -fdq; exit 2; }
-modified=$(timeout 300 go test -vet=off -count=1 -race -run "^${tname}\$" ./$pkgdir 2>&1 | tail -1)
+modified=$(timeout 300 go test -vet=off -count=1 -race -run "^(${tname})\$" ./$pkgdir 2>&1 | tail -1)
 rm -f $wt/$pkgdir/zz_seed_demo_test.go
 suite=$(go build ./... 2>&1 | tail -1; go test -vet=off -count=1 ./... 2>&1 | grep -v '^ok\|no test files' | tail -2)
 git reset -q --hard HEAD; git clean -fdq
